@@ -26,6 +26,10 @@ def generate(rng, n, tier, stats):
         size = len(a['flat'])
         a['flat'] = [rng.choice(range(-4, 9)) if dtype == 'i' else rng.choice([x / 2.0 for x in range(-6, 14)]) for _ in range(size)]
         if dtype == 'f' and rng.random() < 0.1: a['flat'] = [float('nan') if rng.random() < 0.15 else v for v in a['flat']]
+        if dtype == 'f' and rng.random() < 0.08:
+            # infinite cells are ordinary float data: exact at the nodes like any other value (oracle only: the model has rationals and NaN)
+            a['flat'] = [(float('inf') if rng.random() < 0.5 else float('-inf')) if (v == v and rng.random() < 0.2) else v for v in a['flat']]
+            stats['infinite_cells']['yes'] += 1
         lo, hi = min(labs), max(labs)
         pts = []
         for _ in range(rng.randint(0, 5)):
@@ -92,10 +96,21 @@ def oracle_like(case, res):
     w = v.ravel().tolist()
     if len(w) != len(rr['flat']): return 'shape differs'
     for g, y in zip(rr['flat'], w):
-        if isinstance(g, dict):
-            if y == y: return 'NaN where successive numpy.interp gives %r' % y
-        elif y != y or abs(float(g) - y) > 1e-9 * (1 + abs(y)): return 'value %r, successive numpy.interp on the fibres gives %r' % (g, y)
+        if _differs(g, y): return 'value %r, successive numpy.interp on the fibres gives %r' % (g, y)
     return None
+
+def _cf(g):
+    """observed cell -> float (NaN and +-inf come as {'nan': 1} / {'inf': +-1})"""
+    if isinstance(g, dict): return float('nan') if 'nan' in g else float('inf') * g['inf']
+    return float(g)
+def _differs(g, y):
+    g = _cf(g)
+    fin = lambda t: t == t and not math.isinf(t)
+    # between two nodes of which one holds an infinite value the "straight line" is not defined: numpy.interp evaluates it from both
+    # ends to avoid NaN, the weighted sum gives NaN; a non-finite expectation is met by any non-finite value (AT a node the value
+    # itself is demanded, see the node check below)
+    if not fin(g) or not fin(y): return fin(g) != fin(y)
+    return abs(g - y) > 1e-9 * (1 + abs(y))
 
 def oracle(case, res):
     if case['ops'][0][0] == 'interp_like': return oracle_like(case, res)
@@ -119,15 +134,13 @@ def oracle(case, res):
     w = want.ravel().tolist()
     if len(w) != len(rr['flat']): return 'shape differs'
     for g, y in zip(rr['flat'], w):
-        if isinstance(g, dict):
-            if y == y: return 'NaN where numpy.interp gives %r' % y
-        elif y != y or abs(float(g) - y) > 1e-9 * (1 + abs(y)): return 'value %r, numpy.interp on the fibre gives %r' % (g, y)
+        if _differs(g, y): return 'value %r, numpy.interp on the fibre gives %r' % (g, y)
     # exact at the nodes
     labs = a['labels'][p]
     for k, q in enumerate(pts):
         if q in labs:
             j = labs.index(q)
-            got = np.take(np.array([float('nan') if isinstance(c, dict) else float(c) for c in rr['flat']]).reshape(rr['shape']), k, axis=p)
+            got = np.take(np.array([_cf(c) for c in rr['flat']]).reshape(rr['shape']), k, axis=p)
             orig = np.take(v, j, axis=p)
             if not np.array_equal(got, orig, equal_nan=True): return 'original values not reproduced at the existing label %r' % (q,)
     # the Dataset variant agrees with the array one; a variable lacking the axis is handed over unchanged
@@ -147,7 +160,7 @@ def oracle(case, res):
         return 'Dataset.interp_axis raised %s where the array method succeeds' % type(e).__name__
     if obs_dims(gv) != obs_dims(rr) or len(gv['flat']) != len(rr['flat']): return 'Dataset.interp_axis: dims / shape differ from the array result'
     for g, y in zip(gv['flat'], rr['flat']):
-        if isinstance(g, dict) != isinstance(y, dict) or (not isinstance(g, dict) and abs(float(g) - float(y)) > 1e-9 * (1 + abs(float(y)))):
+        if _differs(g, _cf(y)):
             return 'Dataset.interp_axis gives %r where DimArray.interp_axis gives %r (left=%r right=%r)' % (g, y, left, right)
     if not labs_eq(gv['axes'][p]['labels'], pts): return 'Dataset.interp_axis: axis is not the new points'
     if gv['attrs'] != rr['attrs']: return 'Dataset.interp_axis: the metadata of the variable is %r, DimArray.interp_axis keeps %r' % (gv['attrs'], rr['attrs'])
